@@ -1633,7 +1633,25 @@ func (e *cEnv) evalCall(n *ast.CallExpr) (Val, error) {
 			if ro != nil {
 				c.vars[ro] = rv
 			}
-			return c.callFuncIn(fd, args, n)
+			res, err := c.callFuncIn(fd, args, n)
+			// a pointer-receiver method of a local record may write its fields: the
+			// record the caller holds is the one the method worked on
+			if err == nil && ro != nil {
+				if _, isPtr := ro.Type().(*types.Pointer); isPtr {
+					if id, ok := se.X.(*ast.Ident); ok {
+						if obj := info.Uses[id]; obj != nil {
+							if cur, has := e.vars[obj]; has && cur.K == VStruct {
+								if nv, ok := c.vars[ro]; ok && nv.K == VStruct {
+									e.vars[obj] = nv
+								}
+							}
+						}
+					} else if writesRecv(info, fd, ro) {
+						return Val{}, undecidedf(n, "a method that writes its receiver is called on something other than a local record")
+					}
+				}
+			}
+			return res, err
 		}
 	}
 	return e.callFunc(fd, args, n)
@@ -2147,4 +2165,25 @@ func (e *cEnv) execUnknown(branches [][]ast.Stmt, at ast.Node) (ctrl, Val, error
 		}
 	}
 	return flow, Val{}, nil
+}
+
+// writesRecv: the method assigns to (a field of) its receiver.
+func writesRecv(info *types.Info, fd *ast.FuncDecl, ro types.Object) bool {
+	w := false
+	ast.Inspect(fd.Body, func(x ast.Node) bool {
+		switch st := x.(type) {
+		case *ast.AssignStmt:
+			for _, l := range st.Lhs {
+				if nodeMentions(info, l, ro) {
+					w = true
+				}
+			}
+		case *ast.IncDecStmt:
+			if nodeMentions(info, st.X, ro) {
+				w = true
+			}
+		}
+		return true
+	})
+	return w
 }
